@@ -156,6 +156,14 @@ func CheckC08(l *Lab, verifDir string) int {
 			o += len(p.Wire)
 		}
 	}
+	// websocket: zero-length binary messages between, inside and behind packets contribute nothing
+	for _, name := range []string{"session", "setup", "denied"} {
+		sq := seqs[name]
+		n := len(streamOf(sq))
+		jobs = append(jobs, c08Job{name: name, cls: "ws-empty-messages", syms: sq, d: Delivery{MsgCuts: pktBounds(sq), EmptyEvery: 1}, tr: "ws"})
+		jobs = append(jobs, c08Job{name: name, cls: "ws-empty-messages", syms: sq, d: Delivery{MsgCuts: []int{3, 9, n / 2, n - 5}, EmptyEvery: 2}, tr: "ws"})
+		jobs = append(jobs, c08Job{name: name, cls: "ws-empty-messages", syms: sq, d: Delivery{MsgCuts: []int{5, 11, 40, n - 1}, EmptyEvery: 1, PaceUs: 100}, tr: "ws"})
+	}
 	// unframeable streams
 	prefixes := [][]Sym{{}, session[:1], session[:2], session[:4], session[:5]}
 	for _, pre := range prefixes {
@@ -175,6 +183,20 @@ func CheckC08(l *Lab, verifDir string) int {
 		for _, tr := range Transports() {
 			jobs = append(jobs, c08Job{name: fmt.Sprintf("incomplete-after-%d", len(pre)), cls: "unframeable-incomplete", syms: pre, stream: stream,
 				d: Delivery{MsgCuts: []int{len(streamOf(pre))}}, tr: tr, unframeable: true})
+		}
+		// a packet that is present in full but larger than any packet may be (140 000 / 200 000 bytes):
+		// refused however it is delivered (one message, cut, behind another packet)
+		for _, total := range []int{140000, 200000} {
+			body := append([]byte{0, 0}, GenStream(uint64(total), total-10)...)
+			big := Packet(PktData, body)
+			stream := append(streamOf(pre), big...)
+			stream = append(stream, streamOf(session[len(pre):])...)
+			np := len(streamOf(pre))
+			for _, tr := range Transports() {
+				for di, d := range []Delivery{{MsgCuts: []int{np, np + len(big)}, NoFIN: true}, {MsgCuts: []int{np, np + 70000, np + len(big)}, NoFIN: true}, {MsgCuts: []int{np + len(big)}, NoFIN: true}} {
+					jobs = append(jobs, c08Job{name: fmt.Sprintf("oversize-%d-after-%d/%d", total, len(pre), di), cls: "unframeable-oversize-complete", syms: pre, stream: stream, d: d, tr: tr, unframeable: true})
+				}
+			}
 		}
 		// oversized announcement
 		stream = append(streamOf(pre), PacketLen(PktData, GenStream(77, 64), 0xFFFFFFF0)...)
